@@ -901,7 +901,7 @@ TRUSTED = [
     "the level list has fixed length max_levels",
 ]
 
-PROOF_FILES = ["C14/Model.v", "C14/LsmProofs.v", "C14/SeqProofs.v", "C14/ConcProofs.v", "C14/KvTxnModel.v", "C14/KvTxnProofs.v", "C14/BtModel.v", "C14/BtProofs.v", "C14/Props.v"]
+PROOF_FILES = ["C14/Model.v", "C14/LsmProofs.v", "C14/SeqProofs.v", "C14/ConcProofs.v", "C14/KvTxnModel.v", "C14/KvTxnProofs.v", "C14/BtModel.v", "C14/BtProofs.v", "C14/BtRep.v", "C14/BtIns.v", "C14/BtOps.v", "C14/Props.v"]
 
 
 def eval_cases_split(tag, imports, ok_fn, case_type, cases, shard=120, timeout=900, workers=4):
@@ -1005,7 +1005,7 @@ def run(ctx):
     ctx.finish_obligations()
     ctx.assumptions += [
         "LSM overlap clause refuted on the faithful step machine (c14_lsm_overlap_refuted, c14_lsm_scan_overlap_refuted): findings C14-lsm-compaction-not-isolated, C14-lsm-read-overlaps-compaction",
-        "B-tree: overlap clause refuted (c14_btree_overlap_refuted, finding C14-btree-get-overlaps-split); the B-tree's sequential map refinement is NOT proved, it is tied by correspondence (bt_seq) and checked by the oracle only",
+        "B-tree: overlap clause refuted (c14_btree_overlap_refuted, finding C14-btree-get-overlaps-split); the B-tree's sequential map refinement IS proved for every operation sequence and order >= 2 (c14_btree_get_refines_map, c14_btree_scan_exact, c14_btree_delete_reports) and tied by correspondence (bt_seq: results and a preorder dump of the tree after every operation)",
         "snapshot isolation refuted (c14_si_snapshot_refuted, finding C14-si-reads-live); serializability proved for the transaction manager over an atomic store (KVStore)",
         "flush-window defect (reads during a memtable flush) repaired in /repo commit 111a92c; the models follow the repaired code",
     ]
